@@ -29,6 +29,10 @@ os.environ.setdefault("PYTHONHASHSEED", "0")
 if REPO_LIB not in sys.path:
     sys.path.insert(0, REPO_LIB)
 
+import logging  # noqa: E402
+
+logging.disable(logging.ERROR)
+
 from . import tlc  # noqa: E402
 
 
